@@ -168,6 +168,8 @@ class RealX(Real):
             if isinstance(res, list):
                 return "rows" + "".join(":%d=%d" % (k, nv(v)) for k, v in res)
             return "n:%d" % res
+        if a == "PickleOpt":
+            return self.pickle_opt(*arg)
         if a == "MergeTok":
             return self.merge_tok(arg)
         if a == "RefreshV":
@@ -260,6 +262,56 @@ class RealX(Real):
             gc.collect()
             return "new" if ok else "new-bad"
         return super().do(a, arg)
+
+    def pickle_opt(self, k, proto, how):
+        """an instance loaded (by a scratch session) with the per-instance loader option defer(T.v) - state.callables exists -,
+        optionally expired, is pickled; the copy must equal the original field by field and, re-attached to another session,
+        load v from the database"""
+        from sqlalchemy.orm import Session, defer
+        self.call(lambda: None)
+        self.counting = False
+        try:
+            with Session(self.engine) as s2:
+                x = s2.get(T, k, options=[defer(T.v)])
+                if x is None:
+                    return "opt-src-missing"
+                sx = sa.inspect(x)
+                if "callables" not in sx.__dict__ or "v" in sx.dict:
+                    return "opt-src-not-deferred"
+                if how == "expired":
+                    s2.expire(x)
+                try:
+                    c = pickle.loads(pickle.dumps(x, proto))
+                except Exception as e:      # noqa
+                    return type(e).__name__
+                sc = sa.inspect(c)
+                diffs = []
+                dx, dc = dict(sx.dict), dict(sc.dict)
+                dx.pop("_sa_instance_state", None)
+                dc.pop("_sa_instance_state", None)
+                if dx != dc:
+                    diffs.append("dict %r/%r" % (dx, dc))
+                for f in ("key", "expired_attributes", "modified", "expired"):
+                    if getattr(sx, f) != getattr(sc, f):
+                        diffs.append("%s %r/%r" % (f, getattr(sx, f), getattr(sc, f)))
+                if set(sx.__dict__.get("callables", {})) != set(sc.__dict__.get("callables", {})):
+                    diffs.append("callables %r/%r" % (sx.__dict__.get("callables"), sc.__dict__.get("callables")))
+                if not sc.detached:
+                    diffs.append("copy not detached")
+                del sx, sc
+                if diffs:
+                    return "copy-differs: " + "; ".join(diffs)
+                s2.expunge(x)
+            with Session(self.engine) as s3:
+                s3.add(c)
+                try:
+                    val = c.v
+                except Exception as e:      # noqa
+                    return "reattached read: " + type(e).__name__
+                s3.rollback()
+            return "val:%d" % nv(val)
+        finally:
+            self.counting = True
 
     def merge_tok(self, k, tok="tk"):
         """merge() of a detached copy loaded by ANOTHER session under an identity token; the result must be the instance of
@@ -364,7 +416,7 @@ class DriverX:
         if a in ("Add", "Delete", "Expunge", "Expire", "Refresh", "MakeTransient", "Get", "ExpireV", "RefreshV", "Read", "DropRef",
                  "ExtDel", "MergeTok", "QueryAll", "QueryV", "FQueryAll", "FQueryV", "FGet", "FRefresh", "FRead"):
             arg = arg[0]
-        elif a in ("SetV", "SetPk", "ExtSet", "Merge", "Pickle", "QueryC", "FQueryC"):
+        elif a in ("SetV", "SetPk", "ExtSet", "Merge", "Pickle", "QueryC", "FQueryC", "PickleOpt"):
             arg = tuple(arg)
         else:
             arg = None
